@@ -7,7 +7,7 @@ From DH Require Import Lib.CheckLib Model.Partition.
 Import ListNotations.
 Open Scope Z_scope.
 
-Inductive kind := KIdentity | KDropOdd | KDup | KCreate | KDropLow.
+Inductive kind := KIdentity | KDropOdd | KDup | KCreate | KDropLow | KPushIn.
 
 (** the per-entity behaviour of the four JavaScript transforms of the driver *)
 Definition g_of (k : kind) (e : Z) : list Z :=
@@ -17,7 +17,20 @@ Definition g_of (k : kind) (e : Z) : list Z :=
   | KDup => [e; e]
   | KCreate => [e; 100000 + e]
   | KDropLow => if e <? 2 then [] else [e]     (* filters out whole leading pages when the batch size is 1 or 2 *)
+  | KPushIn => [e]                              (* not per-entity: see [f_of] *)
   end.
+
+(** the transform as a function on a chunk.  KPushIn pushes the created entities onto its INPUT array and returns
+    it (entities.push(c); return entities): chunk ++ created(chunk) - the order of the result depends on the chunking *)
+Definition f_of (k : kind) (l : list Z) : option (list Z) :=
+  match k with
+  | KPushIn => Some (l ++ map (fun e => 100000 + e) l)
+  | _ => Some (flat_map (g_of k) l)
+  end.
+
+Fixpoint zinsert (x : Z) (l : list Z) : list Z :=
+  match l with [] => [x] | y :: l' => if x <=? y then x :: l else y :: zinsert x l' end.
+Definition zsort (l : list Z) : list Z := fold_right zinsert [] l.
 
 Record tcase := {
   c_n : Z; c_batch : Z; c_par : Z; c_kind : kind; c_full : bool; c_wrap : bool;
@@ -35,7 +48,7 @@ Definition out_code (r : run_out) : N := match r with ROk => 0 | RErr => 1 | RPa
 Definition predict (m : part_mode) (c : tcase) : N * list (list Z) * list (list Z) * Z * Z :=
   let src := zrange 0 (Z.to_nat (c_n c)) in
   let p := if c_full c then 1 else c_par c in
-  let '(ins, outs, tok, r) := run_job (fun l => Some (flat_map (g_of (c_kind c)) l)) m p (Z.to_nat (c_batch c)) src in
+  let '(ins, outs, tok, r) := run_job (f_of (c_kind c)) m p (Z.to_nat (c_batch c)) src in
   let tok' := if c_full c then (match r with ROk => Z.of_nat tok | _ => 0 end) else Z.of_nat tok in
   (* a second incremental run starts at the stored token = end of feed: Proofs.rerun_noop *)
   let rerun := match r with ROk => if c_full c then -1 else 0 | _ => -1 end in
@@ -63,7 +76,10 @@ Definition spec_ok (c : tcase) : bool :=
   let src := zrange 0 (Z.to_nat (c_n c)) in
   N.eqb (o_outcome c) 0
   && (if c_wrap c then zlist_eqb (concat (o_seen c)) src else true)
-  && zlist_eqb (concat (o_sink c)) (flat_map (g_of (c_kind c)) src)
+  && (match c_kind c with
+      | KPushIn => zlist_eqb (zsort (concat (o_sink c))) (zsort (src ++ map (fun e => 100000 + e) src))
+      | k => zlist_eqb (concat (o_sink c)) (flat_map (g_of k) src)
+      end)
   && Z.eqb (o_token c) (c_n c)
   && (if c_full c then true else Z.eqb (o_rerun c) 0).
 
